@@ -1111,8 +1111,8 @@ def run(ctx):
 
     ncoll = 0
     for c in dict.values(tmod.classes):
-        ln, gi, it = c.methods.get("__len__"), c.methods.get("__getitem__"), c.methods.get("__iter__")
-        if ln is None or (gi is None and it is None):
+        ln, gi, it = prog.lookup(c, "__len__"), prog.lookup(c, "__getitem__"), prog.lookup(c, "__iter__")   # own or inherited
+        if ln is None or (gi is None and it is None) or not c.name.endswith("Collection"):
             continue
         ncoll += 1
         key = "%s.__len__" % c.name
@@ -1134,7 +1134,19 @@ def run(ctx):
                     while isinstance(src_, ast.Call) and dotted(src_.func) in ("iter", "list", "tuple", "enumerate") and src_.args:
                         src_ = src_.args[0]
                     items.add(_P147.full(src_, ival))
-        items = {x for x in items if x.startswith("self.")}
+        def through_props(txt, depth=0):
+            """`self.<property>` read as the one expression the property of this (concrete) class returns"""
+            if depth > 2 or not txt.startswith("self.") or "." in txt[5:] or "(" in txt:
+                return txt
+            pr = prog.lookup(c, txt[5:])
+            if pr is not None and pr.kind in ("property", "lazyproperty"):
+                rs_ = [r_.value for r_ in ast.walk(pr.node) if isinstance(r_, ast.Return) and r_.value is not None]
+                if len(rs_) == 1:
+                    return through_props(_P147.full(rs_[0], _P147.value_aliases(pr.node)), depth + 1)
+            return txt
+
+        lens = [through_props(x) for x in lens]
+        items = {through_props(x) for x in items if x.startswith("self.")}
         if len(lens) != 1 or not items:
             ctx.error(key, "length / item sources not recognised (len of %s; items from %s)" % (lens, sorted(items)))
             continue
